@@ -172,9 +172,92 @@ def answerReq (pre post : List String) : String :=
   | none, _ => "bad-case request"
   | _, none => "bad-case response"
 
+/-! ### client lines -/
+
+def parsePathSegs (s : String) : Option (List Seg) := (s.splitOn "/").mapM parseSeg
+
+def parseCliAuth (s : String) : Option Auth :=
+  if s == "n" then some .none else if s == "w" then some .wrong else if s == "r" then some .right else none
+
+def parseCall (ws : List String) : Option Call := do
+  let name ← field ws "call"
+  let a ← field ws "a"
+  let o ← field ws "o"
+  let l := (← field ws "l") == "1"
+  let f ← field ws "f"
+  if name == "ID" then pure .id
+  else if name == "Version" then pure .version
+  else if name == "Peers" then pure .peers
+  else if name == "Alerts" then pure .alerts
+  else if name == "Graph" then pure .graph
+  else if name == "MetricNames" then pure .metricNames
+  else if name == "PeerAdd" then pure (.peerAdd (← parseSeg a))
+  else if name == "PeerRm" then pure (.peerRm (← parseSeg a))
+  else if name == "Pin" then pure (.pin (← parseSeg a) (← parseOpts o))
+  else if name == "Unpin" then pure (.unpin (← parseSeg a))
+  else if name == "Allocation" then pure (.allocation (← parseSeg a))
+  else if name == "PinPath" then pure (.pinPath (← parsePathSegs a) (← parseOpts o))
+  else if name == "UnpinPath" then pure (.unpinPath (← parsePathSegs a))
+  else if name == "Allocations" then pure (.allocations (← f.toNat?))
+  else if name == "Status" then pure (.status (← parseSeg a) l)
+  else if name == "Recover" then pure (.recover (← parseSeg a) l)
+  else if name == "StatusAll" then pure (.statusAll (← f.toNat?) l)
+  else if name == "RecoverAll" then pure (.recoverAll l)
+  else if name == "RepoGC" then pure (.repoGC l)
+  else if name == "Metrics" then pure (.metrics (← parseSeg a))
+  else none
+
+def parseRet (s : String) : Option Ret :=
+  if s == "same" then some .same else if s == "differ" then some .differ else if s == "cerr" then some .clientErr
+  else if s.startsWith "err" then (s.drop 3).toNat?.map .err else none
+
+def showRet : Ret → String
+  | .same => "same" | .differ => "differ" | .clientErr => "cerr" | .err k => "err" ++ toString k
+
+def canonOps (l : List Op) : List Op := l.map (fun op => { op with arg := canonArg op.arg })
+
+/-- a client pin whose only defect is the mode lost on the CID route (K07 seen through the client) -/
+def cliModeNotEffective (c : Call) (ops : List Op) : Bool :=
+  match c, ops with
+  | .pin s o, [⟨n, .pin p sm⟩] =>
+    (match s.cid with
+     | some cc => n == "Cluster.Pin" && sm != o.mode && Want.ok ⟨["Cluster.Pin"], .pin cc (normOpts o)⟩ ⟨n, .pin p o.mode⟩
+     | none => false)
+  | _, _ => false
+
+/-- StatusAll whose only defect is the filter arriving widened to the error / queued families (K10) -/
+def cliFilterWidened (c : Call) (ops : List Op) : Bool :=
+  match c, ops with
+  | .statusAll m l, [⟨n, .num s⟩] =>
+    n == pick l "Cluster.StatusAll" "Cluster.StatusAllLocal" && s == toString (widen m) && widen m != m
+  | _, _ => false
+
+def answerCli (pre post : List String) : String :=
+  match (do
+      let cfg : CliCfg := { creds := (← field pre "cr") == "1", auth := ← parseCliAuth (← field pre "cc"), rpc := ← parseRpc (← field pre "rpc") }
+      let c ← parseCall pre
+      let ops ← parseOps (← field post "ops")
+      let ret ← parseRet (← field post "ret")
+      pure (cfg, c, ops, ret) : Option (CliCfg × Call × List Op × Ret)) with
+  | none => "bad-case client-line"
+  | some (cfg, c, ops, ret) =>
+    let m := clientCall Gen.chain Gen.routes cfg c
+    let a := "cli-" ++ (field pre "call").getD "?" ++ "-" ++ showRet m.2
+    let failed := (cliClauses cfg c ops ret).filter (fun x => !x.2)
+    if !failed.isEmpty then
+      let names := failed.map (·.1)
+      "propfail " ++ ",".intercalate names ++ " arm=" ++ a ++
+        (if names.contains "client_arrives" && cliModeNotEffective c ops then " why=mode-not-effective" else "") ++
+        (if names.contains "client_arrives" && cliFilterWidened c ops then " why=filter-widened" else "") ++
+        (if names.contains "client_returns" && answerHasOrigins c && ret == .err 200 then " why=answer-has-origins" else "")
+    else if canonOps ops != canonOps m.1 || ret != m.2 then
+      "diff arm=" ++ a ++ " model=" ++ ",".intercalate (m.1.map (·.name)) ++ "/" ++ showRet m.2
+    else "ok arm=" ++ a
+
 def answer (ws : List String) : String :=
   match splitArrow ws with
   | some ("req" :: pre, post) => answerReq pre post
+  | some ("cli" :: pre, post) => answerCli pre post
   | some (k :: _, _) => "bad-case unknown-kind " ++ k
   | _ => "bad-case no-arrow"
 
